@@ -15,6 +15,9 @@ Property theorems only (helper lemmas: `Proofs/Devs.lean`, model: `Model/Devs.le
 scheduling / cancelling / reference-dropping commands (issued at top level or from inside executing
 events), `setup`, `run_until` / `run_for` with a horizon not before the clock, `run_next_event`, callables that raise
 (the run call is cut short, the program catches the exception — `caught` — and goes on: aborted states are reachable states).
+`Reachable` is a SUPERSET of what a Python program can do: `Reachable.until` / `.next` / `.cmd` also apply to a state with the
+exception still on its way (`raised = some x`), where a real program has to catch first; the invariants are proved for the
+superset, so they hold a fortiori for real histories (a run from such a state executes events whose programs do nothing).
 Event ids are handed out in scheduling order, so "(time, priority, id)" is (time, priority, FIFO).
 -/
 namespace Mesa.Devs
@@ -341,7 +344,9 @@ theorem C14_collected_callable_never_runs {s s' : Sim} {c : Nat} (hc : c < s.nex
 
 /-- **An event's weak reference is dead exactly when the program no longer holds its callable object** — in every reachable
     state, for every pending user event (so events that share a callable are all alive or all dead); callable ids are tags that
-    have been handed out. -/
+    have been handed out.  NOTE what this is: a consistency invariant between two *ghost* fields of the model (`Ev.dead` and
+    `Sim.fns` are written together, by `pushUser` and `dropFn` only); it says the model's two views of "collected" never drift
+    apart through any history, not that CPython's weak references behave so (that is in TRUSTED and compared by the check). -/
 theorem C14_weakref_dead_iff_callable_dropped {s : Sim} (h : Reachable s) :
     (∀ x ∈ s.fns, x.1 < s.nextTag) ∧
     (∀ e ∈ s.pending, e.isStep = false → e.fn < s.nextTag ∧ (e.dead = true ↔ s.fns.lookup e.fn = none)) ∧
@@ -379,26 +384,79 @@ clock monotone, once cancelled / collected never executed, at-least-once over `R
 holds in aborted states and across any number of exceptions.  Post-conditions of a run that *returns normally* carry the hypothesis
 `s'.raised = none`; what a run that is cut short leaves is stated here. -/
 
-/-- **What `run_until(T)` leaves when a callable raises `x`.**  The exception comes from the last event the run executed: that
-    event was alive and due, its execution is the last log entry, logged at the clock the run stopped at — the raising event's
-    time, `≤ T` —, everything executed before it is logged before it; the raising program (the step body for a step event)
-    contains that `raise x` (the kind is preserved); the raising event is consumed (no longer on the list), and nothing on the
-    list lies before the clock. -/
+/-- **What `run_until(T)` leaves when a callable raises `x`.**  The run has a trace (`runUntilT`, see below: the events it
+    executed, in order) that ends with the raising event `e`: `e` was alive, live and due, its execution is the last log entry,
+    logged at the clock the run stopped at — `e`'s time, `≤ T` —, everything executed before it is logged before it (at its own
+    time `≤ T`); it is the program of THAT event — `s.prog e.act`, the step body for a step event — that contains the
+    `raise x` (the kind is preserved; a `raise` in some other program of the table does not do); the raising event is consumed
+    (no longer on the list), and nothing on the list lies before the clock. -/
 theorem C14_run_until_aborted {s s' : Sim} {f : Nat} {T : Int} {x : Exc} (h : Reachable s) (hT : s.now ≤ T)
     (h0 : s.raised = none) (hr : runUntil f s T = some s') (hx : s'.raised = some x) :
-    ∃ pre ent, s'.log = s.log ++ pre ++ [ent] ∧ ent.clock = s'.now ∧ s'.now ≤ T ∧ (∀ y ∈ pre, y.clock ≤ T) ∧
-      ((ent.isStep = true ∧ Cmd.raise x ∈ s.stepProg) ∨ (ent.isStep = false ∧ ∃ a, Cmd.raise x ∈ s.prog a)) ∧
-      ent.id ∉ ids s'.pending ∧ ∀ e ∈ s'.pending, s'.now ≤ e.time := by
-  obtain ⟨pre, ent, hlog, hclk, hle, hpre, hprog⟩ := runUntil_aborted h0 hr hx
+    ∃ (tr : List (Ev × Nat)) (e : Ev) (n : Nat), runUntilT f s T = some (s', tr ++ [(e, n)]) ∧
+      s'.log = s.log ++ tr.flatMap (fun y => logOf y.1) ++ logOf e ∧
+      (∀ y ∈ tr ++ [(e, n)], y.1.id < y.2 ∧ y.1.cancelled = false ∧ y.1.time ≤ T) ∧
+      e.dead = false ∧ s'.now = e.time ∧
+      ((e.isStep = true ∧ logOf e = [.step e.id s'.now] ∧ Cmd.raise x ∈ s.stepProg) ∨
+       (e.isStep = false ∧ logOf e = [.user e.id e.tag s'.now] ∧ Cmd.raise x ∈ s.prog e.act)) ∧
+      e.id ∉ ids s'.pending ∧ ∀ z ∈ s'.pending, s'.now ≤ z.time := by
+  obtain ⟨tr0, htr⟩ := runUntilT_of_runUntil hr
+  obtain ⟨tr, e, n, rfl, hd, hnow, hprog⟩ := runUntilT_aborted h0 htr hx
+  have hw := (reachable_inv h).1
   have h' : Reachable s' := .until h hT hr
-  refine ⟨pre, ent, hlog, hclk, hle, hpre, hprog, ?_, (reachable_inv h').1.future⟩
-  intro hmem
-  have hacc := C14_exactly_once_accounting h' ent.id
-  have h1 : 0 < (ids s'.pending).count ent.id := List.count_pos_iff.mpr hmem
-  have h2 : 0 < (logIds s'.log).count ent.id := by
-    apply List.count_pos_iff.mpr
-    rw [hlog]; simp [logIds]
-  split at hacc <;> omega
+  have hlog : s'.log = s.log ++ tr.flatMap (fun y => logOf y.1) ++ logOf e := by
+    rw [runUntilT_log htr]; simp [List.append_assoc]
+  have hlogOf : logOf e = if e.isStep then [.step e.id s'.now] else [.user e.id e.tag s'.now] := by
+    unfold logOf; rw [if_neg (by simp [hd]), hnow]
+  refine ⟨tr, e, n, htr, hlog, runUntilT_born hw htr, hd, hnow, ?_, ?_, (reachable_inv h').1.future⟩
+  · rcases hprog with ⟨hs, hm⟩ | ⟨hs, hm⟩
+    · exact Or.inl ⟨hs, by rw [hlogOf, if_pos hs], hm⟩
+    · exact Or.inr ⟨hs, by rw [hlogOf, if_neg (by simp [hs])], hm⟩
+  · intro hmem
+    have hacc := C14_exactly_once_accounting h' e.id
+    have h1 : 0 < (ids s'.pending).count e.id := List.count_pos_iff.mpr hmem
+    have h2 : 0 < (logIds s'.log).count e.id := by
+      apply List.count_pos_iff.mpr
+      rw [hlog, hlogOf]
+      split <;> simp [logIds, LogEntry.id]
+    split at hacc <;> omega
+
+/-- **... and what `run_next_event` leaves when the callable of the event it executes raises `x`** (the twin of
+    `C14_run_until_aborted`): the event it popped was alive, its execution is logged — the one new log entry — at the event's
+    time, which is the clock; it is that event's program (the step body for a step event) that contains the `raise x`; the
+    event is consumed and nothing on the list lies before the clock. -/
+theorem C14_run_next_aborted {s : Sim} {x : Exc} (h : Reachable s) (h0 : s.raised = none)
+    (hx : (runNext s).raised = some x) :
+    ∃ e rest, popLive s.pending = some (e, rest) ∧ e.dead = false ∧ (runNext s).now = e.time ∧
+      (runNext s).log = s.log ++ logOf e ∧
+      ((e.isStep = true ∧ logOf e = [.step e.id e.time] ∧ Cmd.raise x ∈ s.stepProg) ∨
+       (e.isStep = false ∧ logOf e = [.user e.id e.tag e.time] ∧ Cmd.raise x ∈ s.prog e.act)) ∧
+      e.id ∉ ids (runNext s).pending ∧ ∀ z ∈ (runNext s).pending, (runNext s).now ≤ z.time := by
+  have h' : Reachable (runNext s) := .next h
+  cases hp : popLive s.pending with
+  | none =>
+    have : (runNext s).raised = s.raised := by simp only [runNext, hp]
+    rw [this, h0] at hx; simp at hx
+  | some p =>
+    obtain ⟨e, rest⟩ := p
+    have hrn : runNext s = exec (popped s e rest) e := by simp only [runNext, hp, popped]
+    rw [hrn] at hx
+    obtain ⟨hd, hprog⟩ := exec_raised (s := popped s e rest) h0 hx
+    have hlogOf : logOf e = if e.isStep then [.step e.id e.time] else [.user e.id e.tag e.time] := by
+      unfold logOf; rw [if_neg (by simp [hd])]
+    have hlog : (runNext s).log = s.log ++ logOf e := by
+      rw [hrn, exec_log]; simp [entryOf, logOf, popped]
+    refine ⟨e, rest, rfl, hd, by rw [hrn, exec_now]; rfl, hlog, ?_, ?_, (reachable_inv h').1.future⟩
+    · rcases hprog with ⟨hs, hm⟩ | ⟨hs, hm⟩
+      · exact Or.inl ⟨hs, by rw [hlogOf, if_pos hs], hm⟩
+      · exact Or.inr ⟨hs, by rw [hlogOf, if_neg (by simp [hs])], hm⟩
+    · intro hmem
+      have hacc := C14_exactly_once_accounting h' e.id
+      have h1 : 0 < (ids (runNext s).pending).count e.id := List.count_pos_iff.mpr hmem
+      have h2 : 0 < (logIds (runNext s).log).count e.id := by
+        apply List.count_pos_iff.mpr
+        rw [hlog, hlogOf]
+        split <;> simp [logIds, LogEntry.id]
+      split at hacc <;> omega
 
 /-- **A raising event is executed exactly once.**  Whatever the program does after the exception reached it — catch it, schedule,
     cancel, run again to the same or a later horizon, meet further exceptions —, the event that raised is never run again: in
@@ -419,14 +477,48 @@ theorem C14_raising_event_never_rerun {s s' s'' : Sim} {f : Nat} {T : Int} {x : 
     have h1 : 0 < (ids s''.pending).count ent.id := List.count_pos_iff.mpr hmem
     split at hacc <;> omega
 
-/-- **Resuming after an exception.**  The program catches the exception and calls `run_until(T)` again; if that call returns
-    normally the clock is `T`, no live event with time `≤ T` is left — the events that were still due when the first call was cut
-    short have been executed — and only events with time `≤ T` ran. -/
-theorem C14_resume_after_exception {s s' s'' : Sim} {f f' : Nat} {T : Int} (h : Reachable s) (hT : s.now ≤ T)
-    (hr : runUntil f s T = some s') (hr2 : runUntil f' (caught s') T = some s'') (hn : s''.raised = none) :
-    s''.now = T ∧ (∀ y ∈ s''.pending, y.cancelled = false → T < y.time) ∧
-    ∃ new, s''.log = s'.log ++ new ∧ ∀ y ∈ new, y.clock ≤ T :=
-  C14_run_until_post (s := caught s') (.caught (.until h hT hr)) hr2 hn
+/-- **Resuming after an exception.**  `run_until(T)` was cut short by an exception `x`; the program catches it and calls
+    `run_until(T)` again; if that call returns normally: the clock is `T`; NOTHING is left on the list with time `≤ T` (not even a
+    cancelled entry); only events with time `≤ T` ran; the event that raised is in the log exactly once (it was not run again);
+    every entry that was still on the list with time `≤ T` when the first call was cut short has been consumed — it is off the
+    list and its id is, exactly once, in the execution log or among the discarded (cancelled / collected) ids; and every such
+    entry that was a live user event with a living callable, and that no program cancels or drops (`ProgsSpare`, sufficient), has
+    been EXECUTED, at its own time: `LogEntry.user e.id e.tag e.time` is in the log. -/
+theorem C14_resume_after_exception {s s' s'' : Sim} {f f' : Nat} {T : Int} {x : Exc} (h : Reachable s) (hT : s.now ≤ T)
+    (h0 : s.raised = none) (hr : runUntil f s T = some s') (hx : s'.raised = some x)
+    (hr2 : runUntil f' (caught s') T = some s'') (hn : s''.raised = none) :
+    s''.now = T ∧ (∀ y ∈ s''.pending, T < y.time) ∧
+    (∃ new, s''.log = s'.log ++ new ∧ ∀ y ∈ new, y.clock ≤ T) ∧
+    (∃ ent, s'.log.getLast? = some ent ∧ (logIds s''.log).count ent.id = 1) ∧
+    (∀ e ∈ s'.pending, e.time ≤ T →
+      e.id ∉ ids s''.pending ∧ (logIds s''.log).count e.id + s''.gone.count e.id = 1) ∧
+    (∀ e ∈ s'.pending, e.isStep = false → e.cancelled = false → e.dead = false → e.time ≤ T → ProgsSpare e.tag e.fn s' →
+      LogEntry.user e.id e.tag e.time ∈ s''.log) := by
+  obtain ⟨_, _, _, _, hle, _⟩ := runUntil_aborted h0 hr hx
+  have h' : Reachable s' := .until h hT hr
+  have hc : Reachable (caught s') := .caught h'
+  have hle' : (caught s').now ≤ T := hle
+  have h'' : Reachable s'' := .until hc hle' hr2
+  have hw := (reachable_inv hc).1
+  obtain ⟨hnow, _, hnew⟩ := C14_run_until_post hc hr2 hn
+  have hnd := runUntil_nothing_due hw hr2 hn
+  refine ⟨hnow, hnd, hnew, ?_, ?_, ?_⟩
+  · obtain ⟨ent, h1, h2, _⟩ := C14_raising_event_never_rerun h hT h0 hr hx (.until (.caught .refl) hle' hr2)
+    exact ⟨ent, h1, h2⟩
+  · intro e he heT
+    have he' : e ∈ (caught s').pending := he
+    obtain ⟨hnp, hnext⟩ := runUntil_consumes_due hw (reachable_inv hc).2.1 hr2 hn he' heT
+    refine ⟨hnp, ?_⟩
+    have hacc := C14_exactly_once_accounting h'' e.id
+    have hz : (ids s''.pending).count e.id = 0 := List.count_eq_zero.mpr hnp
+    have hlt : e.id < s''.nextId := Nat.lt_of_lt_of_le (hw.idlt e he') hnext
+    rw [if_pos hlt] at hacc; omega
+  · intro e he hu hl hd heT hps
+    have hserved : Served e.tag e.fn e.id e.time (caught s') := Or.inl ⟨e, he, hu, rfl, rfl, rfl, rfl, hl, hd⟩
+    have hps' : ProgsSpare e.tag e.fn (caught s') := hps
+    rcases (served_stays hserved hps' (.until .refl hle' hr2)).1 with ⟨y, hy, _, _, _, _, h3, _, _⟩ | hlog
+    · have := hnd y hy; omega
+    · exact hlog
 
 /-! ### order of execution with nested scheduling
 
@@ -451,15 +543,31 @@ theorem C14_execution_order {s s' : Sim} {f : Nat} {T : Int} (h : Reachable s) (
     commands, `run_until` / `run_for` / `run_next_event` calls (cut short by exceptions or not), catches — and returns the trace
     of everything executed on the way (`run_next_event` contributes its one event).  The log grows by exactly the trace; of two
     events executed anywhere in the history — in the same run call or in different ones — the earlier has the smaller
-    (time, priority, id) key unless the later one was scheduled only after the earlier one had been popped; and every executed
-    event precedes, in that sense, everything that is still pending at the end. -/
+    (time, priority, id) key unless the later one was scheduled only after the earlier one had been popped; every executed
+    event precedes, in that sense, everything that is still pending at the end; and the number recorded with a traced event is
+    a value the id counter really had: above the event's own id (the event existed at its pop; it was live) and not above the
+    final counter — so "`x.2 ≤ y.id`" can only hold for a `y` scheduled after `x` was popped. -/
 theorem C14_execution_order_history {s s' : Sim} {f : Nat} {sts : List Step} {tr : List (Ev × Nat)} (h : Reachable s)
     (hr : runHistT f s sts = some (s', tr)) :
     s'.log = s.log ++ tr.flatMap (fun y => logOf y.1) ∧
     tr.Pairwise (fun x y => x.1.lt y.1 = true ∨ x.2 ≤ y.1.id) ∧
-    ∀ x ∈ tr, ∀ z ∈ s'.pending, x.1.lt z = true ∨ x.2 ≤ z.id := by
-  obtain ⟨_, ht, hl⟩ := runHistT_spec (reachable_inv h).1 hr
-  exact ⟨hl, ht.ordered, fun x hx => (ht.ahead x hx).1⟩
+    (∀ x ∈ tr, ∀ z ∈ s'.pending, x.1.lt z = true ∨ x.2 ≤ z.id) ∧
+    ∀ x ∈ tr, x.1.id < x.2 ∧ x.2 ≤ s'.nextId ∧ x.1.cancelled = false := by
+  have hw := (reachable_inv h).1
+  obtain ⟨_, ht, hl⟩ := runHistT_spec hw hr
+  exact ⟨hl, ht.ordered, fun x hx => (ht.ahead x hx).1,
+    fun x hx => ⟨(runHistT_born hw hr x hx).1, (ht.ahead x hx).2, (runHistT_born hw hr x hx).2⟩⟩
+
+/-- **The traces of `C14_execution_order_history` are the real histories.**  Erasing the trace from `runHistT` gives `runHist` —
+    nothing but the model's operations (`doCmd`, `runUntil`, `runNext`, `caught`) one after the other —, and every history
+    `ReachableFrom` speaks about is such a list of steps and so has a trace. -/
+theorem C14_history_traces_are_histories :
+    (∀ (f : Nat) (s : Sim) (sts : List Step), (runHistT f s sts).map (·.1) = runHist f s sts) ∧
+    (∀ {s s' : Sim}, ReachableFrom s s' → ∃ f sts tr, runHistT f s sts = some (s', tr)) := by
+  refine ⟨runHistT_erase, fun hr => ?_⟩
+  obtain ⟨f, sts, h⟩ := reachableFrom_runHist hr
+  obtain ⟨tr, htr⟩ := runHistT_of_runHist h
+  exact ⟨f, sts, tr, htr⟩
 
 /-! non-vacuity: a concrete run with ties, nested scheduling and a cancellation -/
 section Example
@@ -535,6 +643,16 @@ example : ((runUntil 10 rs1 4096).bind fun s => (runUntil 10 (caught s) 4096).ma
     some (none, 4096, [0, 2, 1], []) := by decide
 example : ((resume 10 5 rs1 4096).map fun s => (s.now, s.log.map (·.id))) = some (4096, [0, 2, 1]) := by decide
 example : ((runUntilC 10 rs1 4096).map fun s => (s.now, s.log.map (·.id))) = some (4096, [0, 2, 1]) := by decide
+/-- `run_next_event` meets the same exception (`C14_run_next_aborted`): event id 0 consumed, its follow-up (id 2) on the list -/
+example : ((runNext rs1).raised, (runNext rs1).now, (runNext rs1).log.map (·.id), (runNext rs1).pending.map (·.id)) =
+    (some .index, 1024, [0], [2, 1]) := by decide
+/-- the `ProgsSpare` hypothesis of the last clause of `C14_resume_after_exception` is met by both events left on the list when the
+    run was cut short (no program of `rsProg` cancels or drops anything): both are executed by the resumed call (log above) -/
+example (k c : Nat) : ProgsSpare k c (init .devs rsProg []) := by
+  refine ⟨fun a => ?_, by simp [Spares, init]⟩
+  show Spares k c (rsProg a)
+  unfold Spares rsProg
+  split <;> simp
 end Example
 
 end Mesa.Devs
